@@ -12,9 +12,9 @@ if (cd "$WT" && go build ./... >/dev/null 2>&1); then echo "build: OK" >> "$OUT"
 ./baseline.sh "$WT" | head -3 >> "$OUT"
 for p in C01 C02 C03 C04 C05 C06 C07 C08 C09 C10 C11 C12 C13 C14 C15 C16 C17 C18 C19 C20; do
   res=$(./run.sh check -p $p -repo "$WT" -evidence "$WT/.ev.json" 2>&1)
-  if echo "$res" | grep -q '^VIOLATION'; then
+  if printf "%s\n" "$res" | grep -q '^VIOLATION'; then
     echo "FALSE-ALARM $p:" >> "$OUT"
-    echo "$res" | grep -E -A1 '^(VIOLATED|UNDECIDED)' | grep -v 'C11.2 freshness-age-fabricated' | head -12 >> "$OUT"
+    printf "%s\n" "$res" | grep -E -A1 '^(VIOLATED|UNDECIDED)' | grep -v 'C11.2 freshness-age-fabricated' | head -12 >> "$OUT"
   fi
 done
 grep -q FALSE-ALARM "$OUT" || echo "checks: all silent" >> "$OUT"
